@@ -108,6 +108,18 @@ func (m *Model) Join(dst, src *Log) {
 	}
 }
 
+// JoinSet is the union with an arbitrary set of entries (a partial copy of another log).
+func (m *Model) JoinSet(dst *Log, uids []int) {
+	for _, u := range uids {
+		if m.Entries[u].LogID == dst.LogID {
+			dst.Set[u] = true
+		}
+	}
+	if mt := m.MaxTime(dst); mt > dst.Clock {
+		dst.Clock = mt
+	}
+}
+
 // Less is the strict order (time, writer rank[, name]); strictHash adds the name tiebreak.
 func (m *Model) Less(a, b int, hashTie bool) bool {
 	ea, eb := m.Entries[a], m.Entries[b]
